@@ -209,36 +209,7 @@ func runC04(c *Ctx) {
 		})
 	}
 	r.Floor("R3", "handler calls / go / Wait sites checked", n3, 6)
-	// snapshot: the range in dispatch iterates over a fresh result
-	snap := c.snapshotSource(a.SetDispatch)
-	if snap == nil {
-		r.Add("R3", "snapshot", c.Pos(a.SetDispatch.Pos()), c.FuncKey(a.SetDispatch), "dispatch iterates over a call result (the snapshot)", false, "the ranged slice is not a call result")
-	} else {
-		callee := snap.Call.StaticCallee()
-		fc := c.newFresh()
-		ok := callee != nil && fc.funcFresh(callee)
-		why := "every return of " + c.FuncKey(callee) + " is nil or a fresh slice"
-		if !ok {
-			why = fc.why
-		}
-		r.Add("R3", "snapshot-fresh", c.InstrPos(snap), c.FuncKey(a.SetDispatch), "the handler snapshot is a fresh slice per dispatch", ok, why)
-		if callee != nil {
-			r.Funcs[c.FuncKey(callee)] = true
-			// appends happen under the lock
-			okL, nApp := true, 0
-			funcInstrs(callee, func(in ssa.Instruction) {
-				if cc := callOf(in); cc != nil {
-					if b, isB := cc.Value.(*ssa.Builtin); isB && b.Name() == "append" {
-						nApp++
-						if ls.Held(in, lock) == 0 {
-							okL = false
-						}
-					}
-				}
-			})
-			r.Add("R3", "snapshot-under-lock", c.Pos(callee.Pos()), c.FuncKey(callee), "the snapshot is filled while the set's lock is held", okL && nApp > 0, fmt.Sprintf("%d appends", nApp))
-		}
-	}
+	snap := c.snapshotRule("R3", ls, lock)
 
 	// ---- R4
 	nGo := 0
@@ -689,4 +660,42 @@ func (c *Ctx) filledFromSource(fn *ssa.Function, s *ssa.Store, res *ssa.Alloc, r
 		}
 	})
 	return found
+}
+
+// snapshotRule: dispatch iterates over a slice freshly built, under the
+// set's lock, by the function it calls (shared by C04.R3 and C05.R5).
+func (c *Ctx) snapshotRule(rule string, ls *Locksets, lock string) *ssa.Call {
+	r, a := c.R, c.A
+	// snapshot: the range in dispatch iterates over a fresh result
+	snap := c.snapshotSource(a.SetDispatch)
+	if snap == nil {
+		r.Add(rule, "snapshot", c.Pos(a.SetDispatch.Pos()), c.FuncKey(a.SetDispatch), "dispatch iterates over a call result (the snapshot)", false, "the ranged slice is not a call result")
+	} else {
+		callee := snap.Call.StaticCallee()
+		fc := c.newFresh()
+		ok := callee != nil && fc.funcFresh(callee)
+		why := "every return of " + c.FuncKey(callee) + " is nil or a fresh slice"
+		if !ok {
+			why = fc.why
+		}
+		r.Add(rule, "snapshot-fresh", c.InstrPos(snap), c.FuncKey(a.SetDispatch), "the handler snapshot is a fresh slice per dispatch", ok, why)
+		if callee != nil {
+			r.Funcs[c.FuncKey(callee)] = true
+			// appends happen under the lock
+			okL, nApp := true, 0
+			funcInstrs(callee, func(in ssa.Instruction) {
+				if cc := callOf(in); cc != nil {
+					if b, isB := cc.Value.(*ssa.Builtin); isB && b.Name() == "append" {
+						nApp++
+						if ls.Held(in, lock) == 0 {
+							okL = false
+						}
+					}
+				}
+			})
+			r.Add(rule, "snapshot-under-lock", c.Pos(callee.Pos()), c.FuncKey(callee), "the snapshot is filled while the set's lock is held", okL && nApp > 0, fmt.Sprintf("%d appends", nApp))
+		}
+	}
+
+	return snap
 }
